@@ -57,6 +57,10 @@ def run_case(case, fresh=True):
                                   forbidden_drivers=set(forb), successful_only=True,
                                   skip_feedforward_successions=case["skip_ff"])
     lines = [ni.net_line, f"SUCCS {ni.sp(target)} {dump}", f"PERC {'-' * ni.n}"]
+    tie_fresh = not case["ops"] and not case.get("pre_query")
+    if tie_fresh:
+        # the diagram the successions are read from is the model's own target-directed expansion (literal tie)
+        lines += [f"CFG {case.get('max_motifs', 100000)}", "SDINIT", f"TARGET {ni.sp(target)} -"]
     steps = []
     root = None
     fails, diffs = [], []
@@ -65,6 +69,8 @@ def run_case(case, fresh=True):
     for a, iv in enumerate(ivs):
         steps.append([])
     rep = common.run_driver(lines)
+    if tie_fresh and rep[5] != "true " + dump:
+        diffs.append({"stream": "OBS literal diagram state after the target-directed expansion", "impl": dump[:400], "model": rep[5][:400]})
     # `drivers_of_succession` starts with an empty `assume_fixed` (the whole state space)
     root = "-" * ni.n
     # successions as multiset
@@ -73,6 +79,12 @@ def run_case(case, fresh=True):
         gots = "EMPTY"
     else:
         gots = " ; ".join(got)
+    if tie_fresh and rep[5].startswith("true ") and not case["skip_ff"]:
+        # the chains of stable motifs of the *model's* diagram (not of the dump the real code produced)
+        repm = common.run_driver([ni.net_line, f"SUCCS {ni.sp(target)} {rep[5][5:]}"])
+        if gots != repm[1]:
+            fails.append({"kind": "successions", "sig": {"diagram": "model"}, "detail":
+                          f"target {ni.sp(target)}: real {gots[:300]} / chains of stable motifs of the full target-directed diagram {repm[1][:300]}"})
     if not case["skip_ff"]:
         if gots != rep[1]:
             fails.append({"kind": "successions", "sig": {}, "detail": f"target {ni.sp(target)}: real {gots[:300]} / chains of the target-directed diagram {rep[1][:300]}", "dump": dump[:400]})
